@@ -36,6 +36,8 @@ def callee_kind(fj, declared, target):
                     args = (fj or {}).get("args") or []
                     if not any(a.lstrip("&") in ARITH_TYPES_PANIC for a in args[:1]):
                         return None
+                if kind == "index" and any(a == "std::ops::RangeFull" for a in ((fj or {}).get("args") or [])):
+                    return None         # x[..] is the whole slice: no bound to violate
                 return kind
     return None
 
